@@ -33,7 +33,7 @@ const C = boson.ChunkSize
 const hdr = soc.IdSize + soc.SignatureSize + boson.SpanSize
 
 func (prop) Gen(r *core.Rand, tier string) []core.Case {
-	n, big, hdrMut, payMut, addrMut := 12, 1, 12, 4, 4
+	n, big, hdrMut, payMut, addrMut := 8, 1, 10, 4, 4
 	if tier == "thorough" {
 		n, big, hdrMut, payMut, addrMut = 40, 4, 105, 64, 32
 	}
@@ -45,6 +45,13 @@ func (prop) Gen(r *core.Rand, tier string) []core.Case {
 		"mutd 97 1", "valid", "mutd 97 1", "mutd 105 1", "valid", "mutd 105 1", "muta 0 1", "valid", "muta 0 1", "valid",
 		"trunc 105", "valid", "trunc 104", "valid", "parse"}}
 	cs = append(cs, fix)
+	// regression (fix aca4d22): the recovery byte with btcec's compressed-key flag (27->31 = xor 4, 28->32 = xor 60)
+	// recovered the same owner, so the mutated chunk was still valid
+	cs = append(cs, core.Case{ID: "fix-recid-flag", NT: true, Ops: []string{"sign " + k1 + " " + id1 + " g:9:50", "valid",
+		"mutd 96 4", "valid", "parse", "mutd 96 4", "mutd 96 60", "valid", "mutd 96 60", "mutd 96 7", "valid", "mutd 96 7", "valid",
+		"sign " + core.Hex(bytes.Repeat([]byte{0x33}, 32)) + " " + id1 + " g:9:50", "mutd 96 4", "valid", "mutd 96 4", "mutd 96 60", "valid",
+		"sign " + core.Hex(bytes.Repeat([]byte{0x44}, 32)) + " " + id1 + " g:10:50", "mutd 96 4", "valid", "mutd 96 4", "mutd 96 60", "valid",
+		"sign " + core.Hex(bytes.Repeat([]byte{0x55}, 32)) + " " + id1 + " g:11:50", "mutd 96 4", "valid", "mutd 96 4", "mutd 96 60", "valid"}})
 	// every header byte once (always, both tiers): the property's "all single-byte mutations" of the header
 	all := core.Case{ID: "fix-header-all", NT: true, Ops: []string{"sign " + core.Hex(r.Bytes(32)) + " " + core.Hex(r.Bytes(32)) + " g:5:100", "valid"}}
 	for p := 0; p < hdr; p++ {
@@ -127,6 +134,12 @@ func (prop) Gen(r *core.Rand, tier string) []core.Case {
 			for _, p := range []int{0, 31, 32, 95, 96, 97, 104} {
 				if !big || r.Chance(30) {
 					mut("mutd", p)
+				}
+			}
+			if !big {
+				for _, x := range []int{4, 60, 32, 7} { // recovery byte: compressed-key flag, other recovery ids
+					c.Ops = append(c.Ops, fmt.Sprintf("mutd 96 %d", x), "valid", fmt.Sprintf("mutd 96 %d", x))
+					muts++
 				}
 			}
 			if hm >= hdr {
